@@ -53,8 +53,11 @@ def impl(inp):
                 # computes with the array it was handed (in place): the table must not change
                 for k in (0, 1, 2, 3, 4):
                     off = actors[kind].grid_action(k)
-                    off *= 7
-                    off += 3
+                    try:
+                        off *= 7
+                        off += 3
+                    except (ValueError, TypeError):
+                        pass                    # handed out read-only: nothing to scribble on
                 res = actors[kind].process_action(a, {"move": op[2]})
             r = 1 if res else 0
         except TimeoutError:
